@@ -5,7 +5,7 @@
 // MatrixFreeOperator. Oracle: Eigen::SelfAdjointEigenSolver (SYMM) / a
 // symmetric reduction of the BSE-form matrix [[A,B],[-B,-A]] (HAM).
 //
-//   --mode random --sizes small|large --seed S --shard k --n N   (randomised families, silent for all seeds)
+//   --mode random --sizes small|large|late --seed S --shard k --n N   (randomised families, silent for all seeds)
 //   --mode adversarial                                           (fixed deterministic set, §6 item 18)
 #include "vfh.h"
 #include <cfloat>
@@ -115,6 +115,8 @@ static Outcome solve(const MatrixXd &M, const Cfg &c) {
 }
 
 // ------------------------------------------------------------------ matrices
+// element-wise coupling (in units of the diagonal gap) of the late_root family, see the rule in c09.py
+static const double LATE_SIGMA_MIN = 1e-3, LATE_SIGMA_MAX = 1e-1;
 struct Mat {
   std::string family;
   uint64_t gen_seed;  // the matrix is a pure function of (family parameters, gen_seed): replayable
@@ -204,6 +206,34 @@ static Mat gen_symm_seeded(uint64_t gen_seed, long n, int fam) {
       m.family = "dense_coupling";
       m.M = diag_plus_coupling(r, n, g, rho, d0, sh, 0);
       p.d("gap", g).d("rho", rho).d("d0", d0).b("shuffled", sh);
+      break;
+    }
+    case 6: {  // late-entering root: one of the lowest eigenvalues is missing from the initial guess
+      // ordinary increasing diagonal + weak dense coupling; two EQUAL large diagonal entries D far down the diagonal
+      // with a strong mutual element c, so that D-|c| lies between the lowest eigenvalues; the pair is coupled weakly
+      // (not zero) to the rest. The unit-vector guess (smallest diagonal entries) does not contain that root.
+      double g = r.logu(0.3, 1.5), sigma = r.logu(LATE_SIGMA_MIN, LATE_SIGMA_MAX), sigpq = r.logu(LATE_SIGMA_MIN, LATE_SIGMA_MAX);
+      VectorXd d(n);
+      for (long i = 0; i < n; ++i) d[i] = 1.0 + g * ((double)i + 0.4 * r.uni());
+      m.M = MatrixXd::Zero(n, n);
+      for (long i = 0; i < n; ++i)
+        for (long j = i + 1; j < n; ++j) m.M(i, j) = m.M(j, i) = r.normal() * sigma * g;
+      long pp = r.range(n / 2, n - 1), qq = r.range(n / 2, n - 2);
+      if (qq >= pp) ++qq;
+      long slot = r.range(0, 3);  // the late root lies between the slot-th and the next lowest diagonal entry
+      double t = d[slot] + r.uni(0.3, 0.7) * g;
+      double D = d[n - 1] * r.uni(0.5, 2.0);
+      double c = (r.coin() ? 1.0 : -1.0) * (D - t);
+      m.M.diagonal() = d;
+      for (long k = 0; k < n; ++k)
+        if (k != pp && k != qq) {
+          m.M(pp, k) = m.M(k, pp) = r.normal() * sigpq * g;
+          m.M(qq, k) = m.M(k, qq) = r.normal() * sigpq * g;
+        }
+      m.M(pp, pp) = m.M(qq, qq) = D;
+      m.M(pp, qq) = m.M(qq, pp) = c;
+      m.family = "late_root";
+      p.d("gap", g).d("sigma", sigma).d("sigma_pair", sigpq).i("p", pp).i("q", qq).i("slot", slot).d("D", D).d("c", c).d("target", t);
       break;
     }
     default: {  // prescribed spectrum Q Lambda Q^T
@@ -465,6 +495,25 @@ static Cfg gen_cfg(vfh::Rng &r, long combo, long n, bool ham) {
   return c;
 }
 
+// options of the late_root family: neigen 4..8, emphasis on loose/normal, both corrections, all update sizes,
+// default or tight search-space limit
+static Cfg gen_cfg_late(vfh::Rng &r, long n) {
+  Cfg c;
+  c.corr = CORR[r.range(0, 1)];
+  c.upd = UPD[r.range(0, 2)];
+  int tc = (int)r.range(0, 9);
+  c.tol = tc <= 4 ? "loose" : tc <= 7 ? "normal" : tc == 8 ? "strict" : "lapack";
+  c.tolv = tol_value(c.tol);
+  c.neigen = r.range(4, 8);
+  long upd = c.upd == "min" ? c.neigen : c.upd == "max" ? 2 * c.neigen : (long)(1.5 * (double)c.neigen);
+  if (r.coin(0.5)) c.max_space = 0;
+  else c.max_space = r.range(c.neigen, 2 * c.neigen + upd + 2);
+  c.iter_max = r.coin(0.85) ? 50 : 200;
+  c.matfree = r.coin(0.3);
+  (void)n;
+  return c;
+}
+
 static void account(vfh::Reporter &R, const Mat &m, const Cfg &c, const Outcome &o, bool judged_success, uint64_t h) {
   R.counter("combo:" + c.corr + "/" + c.upd + "/" + c.tol);
   R.counter("restarts_observed", o.restarts);
@@ -481,39 +530,42 @@ static std::string replay_str(bool large, long seed, long shard, long mi) {
   return "c09 --mode random --sizes " + std::string(large ? "large" : "small") + " --seed " + std::to_string(seed) + " --shard " + std::to_string(shard) + " --only " + std::to_string(mi) + (large ? "  (fast flavour)" : "  (asan flavour)");
 }
 
-static void run_random(vfh::Reporter &R, long seed, long shard, long nsolves, bool large, long only) {
+static void run_random(vfh::Reporter &R, long seed, long shard, long nsolves, bool large, long only, bool late = false) {
   long done = 0;
   for (long mi = 0; done < nsolves; ++mi) {
     // one matrix (one dense reference), several option settings; everything is a function of (seed, shard, mi)
-    vfh::Rng rm((uint64_t)seed * 1000003ULL + (uint64_t)shard * 7919ULL + (uint64_t)mi * 104729ULL + (large ? 5 : 3));
+    vfh::Rng rm((uint64_t)seed * 1000003ULL + (uint64_t)shard * 7919ULL + (uint64_t)mi * 104729ULL + (late ? 9 : large ? 5 : 3));
     if (only >= 0 && mi != only) {
       if (mi > only) break;
       continue;
     }
     long n;
-    if (large) n = (long)r_round(rm.logu(201, 1000));
+    if (late) n = rm.range(100, 200);
+    else if (large) n = (long)r_round(rm.logu(201, 1000));
     else {
       int sc = (int)rm.range(0, 9);
       n = sc <= 1 ? rm.range(2, 12) : (sc <= 6 ? rm.range(13, 60) : rm.range(61, 200));
     }
-    bool ham = n >= 4 && rm.coin(large ? 0.1 : 0.2);
+    bool ham = !late && n >= 4 && rm.coin(large ? 0.1 : 0.2);
     Mat m;
-    if (ham) m = gen_ham(rm, n / 2);
+    if (late) m = gen_symm(rm, n, 6);
+    else if (ham) m = gen_ham(rm, n / 2);
     else {
       int fc = (int)rm.range(0, 19);
       int fam = fc < 6 ? 0 : fc < 9 ? 1 : fc < 12 ? 2 : fc < 15 ? 3 : fc < 18 ? 4 : 5;
       m = gen_symm(rm, n, fam);
     }
-    long nsol = large ? 3 : 4;
+    long nsol = late ? 6 : large ? 3 : 4;
     for (long s = 0; s < nsol && done < nsolves; ++s, ++done) {
       long combo = (shard * 5 + mi * nsol + s) % 24;
-      Cfg c = gen_cfg(rm, combo, m.n, ham);
+      Cfg c = late ? gen_cfg_late(rm, m.n) : gen_cfg(rm, combo, m.n, ham);
+      const std::string rps = late ? "c09 --mode random --sizes late --seed " + std::to_string(seed) + " --shard " + std::to_string(shard) + " --only " + std::to_string(mi) + "  (asan flavour)" : replay_str(large, seed, shard, mi);
       J cj;
-      cj.raw("matrix", mat_witness(m)).raw("options", cjson(c)).s("replay", replay_str(large, seed, shard, mi));
+      cj.raw("matrix", mat_witness(m)).raw("options", cjson(c)).s("replay", rps);
       vfh::set_case(cj.str());
       R.eval(m.family);
       Outcome o = solve(m.M, c);
-      bool js = judge(R, m, c, o, replay_str(large, seed, shard, mi), "");
+      bool js = judge(R, m, c, o, rps, "");
       uint64_t h = vfh::hmix(m.gen_seed, (uint64_t)combo * 1315423911ULL + (uint64_t)c.neigen * 31 + (uint64_t)c.max_space * 7 + (uint64_t)c.iter_max);
       account(R, m, c, o, js, h);
       if (m.n < 4) R.counter("tiny_matrices_below_size_4");
@@ -694,7 +746,7 @@ int main(int argc, char **argv) {
   R.max_samples = 3;
   std::string mode = A.str("mode", "random");
   if (mode == "adversarial") run_adversarial(R);
-  else run_random(R, A.num("seed", 1), A.num("shard", 0), A.num("n", 20), A.str("sizes", "small") == "large", A.has("only") ? A.num("only", 0) : -1);
+  else run_random(R, A.num("seed", 1), A.num("shard", 0), A.num("n", 20), A.str("sizes", "small") == "large", A.has("only") ? A.num("only", 0) : -1, A.str("sizes", "small") == "late");
   R.summary();
   return 0;
 }
